@@ -266,9 +266,18 @@ func makeTarget(
 		if err != nil {
 			return nil, err
 		}
-		if last := fields[len(fields)-1]; last.IsList() {
+		last := fields[len(fields)-1]
+		if last.IsList() {
 			return nil, fmt.Errorf(
 				"unexpected path variable %q: cannot be a repeated field",
+				variable.fieldPath,
+			)
+		}
+		if !isParameterType(last) {
+			// (This includes map fields.) No value could ever be assigned to
+			// it from a URL path.
+			return nil, fmt.Errorf(
+				"unexpected path variable %q: must be a scalar field or a well-known type with a scalar JSON form",
 				variable.fieldPath,
 			)
 		}
